@@ -628,7 +628,10 @@ class _Merger(object):
                                  .format(existing))
         else:
             self.posargs.append(self._concile_meta(existing, other))
-            _add_sources(self.src, existing.name, src)
+            if other.name == existing.name:
+                _add_sources(self.src, existing.name, src, o_src)
+            else:
+                _add_sources(self.src, existing.name, src)
 
     def _merge_unbalanced_pok(
             self, existing, src,
